@@ -801,6 +801,13 @@ inline std::vector<std::string> extended_names(std::vector<std::string> const &a
   return out;
 }
 
+inline std::vector<std::string> alpha_from(std::vector<std::string> own)
+{
+  for (char const *t : {"--zz", "-", "--", "-1", "7", "x"})
+    own.push_back(t);
+  return own;
+}
+
 FCPPT_RECORD_MAKE_LABEL(la);
 FCPPT_RECORD_MAKE_LABEL(lb);
 FCPPT_RECORD_MAKE_LABEL(lc);
